@@ -7,6 +7,15 @@ CTX = f"{V}.SchemaValidationContext"
 
 
 def install(w):
+
+    # the reserved-name rule exempts exactly the eight introspection types of the specification
+    # (by name), not every name that starts with two underscores
+    NAMES = ("__Schema", "__Directive", "__DirectiveLocation", "__Type", "__Field", "__InputValue",
+             "__EnumValue", "__TypeKind")
+    w.contract("graphql.type.introspection.is_introspection_type", params={"type_": "ty"},
+               returns="bool", requires=["NamedTy(type_)"],
+               ensures=["result == (" + " or ".join(f"same_str(type_.name, '{n}')" for n in NAMES) + ")"],
+               raises=[], modifies=[], props={"C20"})
     w.shape("SchemaValidationContext", errors=("list", "opaque"), schema="ref:GraphQLSchema")
 
     # report_error appends one GraphQLError; nodes may be a node, None or a collection with Nones
@@ -16,8 +25,44 @@ def install(w):
 
     NEVER = dict(raises=[], ghost_modifies=["errs"], modifies=["self.errors"],
                  loop_all=["ghost('errs') >= old(ghost('errs'))"])
-    for cls in ("InputObjectNonNullCircularRefsValidator",
-                "InputObjectDefaultValueCircularRefsValidator"):
+    # the non-null cycle search: a DFS that follows exactly the fields whose type is NonNull(InputObject)
+    # - whether or not the field has a default value (a default does not make the cycle breakable
+    # for a client that provides the field) - enters a type once, restores its path index on exit and
+    # terminates (measure: input object types not yet visited)
+    NN = f"{V}.InputObjectNonNullCircularRefsValidator"
+    w.alias("InputObjectNonNullCircularRefsValidator", NN)
+    w.alias("SchemaValidationContext", CTX)
+    w.shape("InputObjectNonNullCircularRefsValidator", context="obj:SchemaValidationContext",
+            visited_types=("nameset", "circ_unvisited"), field_path=("list", ("tuple", "str", "dyn")),
+            field_path_index_by_type_name=("map", "int"))
+    w.contract(f"{NN}.__call__", params={"input_obj": "ty"},
+               requires=["kind_is(input_obj, 'INPUT_OBJECT')",
+                         "not mhas(self.field_path_index_by_type_name, input_obj.name)"],
+               ensures=["ghost('errs') >= old(ghost('errs'))",
+                        "ghost('circ_unvisited') <= old(ghost('circ_unvisited'))", "ghost('circ_unvisited') >= 0",
+                        "forall_int(k, mhas(self.field_path_index_by_type_name, k)"
+                        " == old(mhas(self.field_path_index_by_type_name, k)))"],
+               raises=[], modifies=None, ghost_modifies=["errs", "circ_unvisited"], ghost_calls=["circ_calls"],
+               modifies_maps=True, decreases=["ghost('circ_unvisited')"],
+               loops={1: {"invariant": [
+                   "ghost('errs') >= old(ghost('errs'))",
+                   "ghost('circ_unvisited') <= old(ghost('circ_unvisited')) - 1", "ghost('circ_unvisited') >= 0",
+                   "forall_int(k, mhas(self.field_path_index_by_type_name, k) =="
+                   " (old(mhas(self.field_path_index_by_type_name, k)) or k == mkey(name)))"],
+                   "step_post": [
+                   # every non-null input-object edge is followed (or closes a cycle that is reported)
+                   "implies(NonNull(field.type) and kind_is(of(field.type), 'INPUT_OBJECT'),"
+                   " ghost('circ_calls') == at_iter_start(ghost('circ_calls')) + 1"
+                   " or (ghost('circ_calls') == at_iter_start(ghost('circ_calls'))"
+                   " and ghost('errs') == at_iter_start(ghost('errs')) + 1))",
+                   "implies(not (NonNull(field.type) and kind_is(of(field.type), 'INPUT_OBJECT')),"
+                   " ghost('circ_calls') == at_iter_start(ghost('circ_calls'))"
+                   " and ghost('errs') == at_iter_start(ghost('errs')))",
+                   ]}},
+               props={"C20"})
+    w.contract(f"{NN}.__init__", params={"context": "opaque"},
+               ensures=["forall_int(k, not mhas(self.field_path_index_by_type_name, k))"], raises=[], assumed=True)
+    for cls in ("InputObjectDefaultValueCircularRefsValidator",):
         w.contract(f"{V}.{cls}.__call__", params={"input_obj": "ty"},
                    requires=["kind_is(input_obj, 'INPUT_OBJECT')"],
                    ensures=["ghost('errs') >= old(ghost('errs'))"], raises=[],
@@ -95,8 +140,16 @@ def install(w):
                     "ghost('errs') == at_iter_start(ghost('errs')) + ite("
                     "not omap_has(iface_field.args, arg_name) and Required(type_arg), 1, 0)"]},
             }
+        if m == "validate_types":
+            # the non-null cycle search starts every top-level call with an empty path index
+            # (created empty, restored by every call)
+            extra["loops"] = {1: {"invariant": MONO + [
+                "forall_int(k, not mhas(validate_input_object_non_null_circular_refs."
+                "field_path_index_by_type_name, k))"]}}
+            extra["modifies_maps"] = True
         w.contract(f"{CTX}.{m}", params=params, requires=req, ensures=MONO, props={"C20"},
-                   **NEVER, **extra)
+                   **dict(NEVER, **({"ghost_modifies": ["errs", "circ_unvisited"]} if m == "validate_types" else {})),
+                   **extra)
 
     for h, params, ret in (
         ("get_operation_type_node", {"schema": "ref:GraphQLSchema", "operation": "atom:OperationType"},
